@@ -219,8 +219,22 @@ def run(p: Program, rep: Report, tier: str) -> None:
             rep.undecide("R19.2", f"the terminator of the block is not a literal display: {show(ch[2][-1])[:60]}")
         elif ch[0] == "gen" or (ch[0] == "call" and ch[1] != ("ext", "itertools.chain") and ch[1][0] != "builtin"):
             rep.undecide("R19.2", f"the lines of the block come from a helper the rule does not read: {show(ch)[:60]}")
-        else:
+        elif ch[0] in ("tuple", "list") and len(ch[1]) >= 2 and ch[1][-2:] == (("const", b""), ("const", b"")):
+            rep.ok("R19.2", "block = b'\\n'.join([*field lines, *data lines, b'', b'']) -> ends with a blank line")
+        elif ch[0] in ("tuple", "list") or (ch[0] == "call" and ch[1] == ("ext", "itertools.chain") and ch[2] and ch[2][-1][0] in ("tuple", "list", "const")):
+            # a literal display whose end can be read and is not (b"", b"")
             rep.violation("R19.2", construct(fn, text=f"terminator {show(ch)[-60:]}"), where(fn), "the block does not end with the two empty elements that produce the terminating blank line")
+        else:
+            # a list filled by append / extend statements, a local, a slice ...: its last elements are not a display the rule can read.
+            # Statement-level reading of the accumulation: the last two top-level statements that add to it append b"" each
+            acc = [st_ for st_ in fn.node.body if isinstance(st_, ast.Expr) and isinstance(st_.value, ast.Call) and isinstance(st_.value.func, ast.Attribute)
+                   and st_.value.func.attr in ("append", "extend")]
+            tail_ok = len(acc) >= 2 and all(a_.value.func.attr == "append" and len(a_.value.args) == 1 and isinstance(a_.value.args[0], ast.Constant) and a_.value.args[0].value == b"" for a_ in acc[-2:]) \
+                and ast.unparse(acc[-1].value.func.value) == ast.unparse(acc[-2].value.func.value)
+            if tail_ok:
+                rep.undecide("R19.2", f"the block is accumulated in a list by append statements (the last two append b''): its field and data lines are not read off a display ({show(ch)[:50]})")
+            else:
+                rep.undecide("R19.2", f"the lines of the block are collected in an idiom outside the table: {show(ch)[:60]}")
         if ch[0] == "call" and ch[2] and ch[2][0][0] == "call" and ch[2][0][1] == ("builtin", "map"):
             margs = ch[2][0][2]
             if len(margs) == 3 and show(margs[1]).endswith(".keys()") and show(margs[2]).endswith(".values()") and show(margs[1])[:-7] == show(margs[2])[:-9]:
